@@ -201,6 +201,19 @@ def run(ctx):
     if multi and any(c == ("nop", ()) for st in want_steps for c in st):
         ctx.probes["nop_slot"] += 1
     ctx.probes["multi" if multi else "single"] += 1
+    # ---- history on the triplets: a window that does not start at the initial state is exported (and read back) first;
+    # the triplets are then exported as a whole
+    if len(triplets) >= 2 and f.chance(1, 3):
+        k0 = 1 + f.draw(len(triplets) - 1)
+        wpath = ctx.rundir / "window.trajectory"
+        try:
+            exporter.export_to_file(triplets[k0:], wpath)
+            obs = L().TrajectoryParser(d, p).parse_trajectory(wpath, executing_agents=agents if multi else None)
+        except Exception as e:
+            raise Violation("C10/exported-trajectory-rejected", "export_to_file(window) -> parse_trajectory",
+                            f"window [{k0}:]: {type(e).__name__}: {e}")
+        compare_obs(ctx, obs, multi, want_states[k0:], want_steps[k0:], None, "parse_trajectory (window of the trajectory)")
+        ctx.probes["window_exported_first"] += 1
     # ---- export under a fault plan
     path = ctx.rundir / "traj.trajectory"
     expected = "".join(exporter.export(triplets)).encode("utf-8")
